@@ -55,6 +55,7 @@ type evmcSetup struct {
 	TxValue string            `json:"txValue"` // value attached to the top-level tx (only when top is a call)
 	Denom2  bool              `json:"denom2"`  // rewards also in a second denomination
 	Gas     uint64            `json:"gas"`     // gas limit of the transaction under test (default 3,000,000)
+	NoNFund bool              `json:"noNFund"` // the addresses of nested CREATEs are not funded beforehand: they have no account
 	Fresh   bool              `json:"fresh"`   // a further role F: an address without an account (no coins, nothing)
 	PriorLog bool             `json:"priorLog"` // an earlier transaction of the same block emits a log (the log index of the block is not 0)
 	Acl     bool              `json:"acl"`     // EIP-2930 transaction whose access list names every contract of the tree and the roles (all callees warm)
@@ -161,7 +162,7 @@ func (r *evmcRun) project(ctx sdk.Context) M {
 			storage[fr] = st
 		}
 		holder := common.BytesToAddress(r.addrs[fr])
-		if k := r.kinds[id]; k == "call" || k == "pc" || k == "recall" || k == "create" {
+		if k := r.kinds[id]; k == "call" || k == "pc" || k == "recall" || k == "create" || k == "ncall" {
 			holder = r.w.recorderAddr() // success flags live in the recorder contract
 		}
 		v := app.EvmKeeper.GetState(ctx, holder, common.BigToHash(big.NewInt(int64(id))))
@@ -503,7 +504,7 @@ func evmcOne(tw *TraceWriter, scn int, src string, sc evmcScenario) {
 	}
 	sort.Strings(nnames)
 	for _, nm := range nnames {
-		if fund.Sign() > 0 {
+		if fund.Sign() > 0 && !sc.Setup.NoNFund {
 			if err := n.App.BankKeeper.SendCoins(ctx, w.Acct("a6").Addr, sdk.AccAddress(ew.NAddrs[nm].Bytes()), sdk.NewCoins(coin(fund.String()))); err != nil {
 				panic(err)
 			}
